@@ -117,11 +117,19 @@ def run(ctx):
     if ctx.quick:
         # focus groups: all ordered pairs within each group (in the
         # thorough tier they are part of the full family anyway)
-        for g in schemas.FOCUS_GROUPS:
+        for g, allpairs in schemas.FOCUS_GROUPS:
             extra = [m for m in g if m not in fam]
             fam = fam + extra
-            pairs += [(a, b) for a, b in itertools.permutations(g, 2)
-                      if (a, b) not in set(pairs)]
+            if allpairs:
+                gp = list(itertools.permutations(g, 2))
+            else:
+                gp = [(g[0], m) for m in g[1:]] + [(m, g[0]) for m in g[1:]]
+                # and a seed-selected slice of the cross pairs
+                cross = [(a, b) for a, b in itertools.permutations(g[1:], 2)]
+                gp += [p for i, p in enumerate(cross)
+                       if i % 40 == ctx.seed % 40]
+            have = set(pairs)
+            pairs += [p for p in gp if p not in have]
         schemax.family_built(ctx, fam)
     k = ctx.seed % len(pairs)
     pairs = pairs[k:] + pairs[:k]
